@@ -425,6 +425,41 @@ def build(inp) -> Case:
         both("auc", "auc")
         both("auc", "auc", 0.0, 0.5, x_axis="fnr", y_axis="tnr")
         rsw = both("swap", "swap")
+        # the resampling queries (inherited): same draws from the same RNG state, so identical samples / replicates /
+        # intervals - in particular a smoothed sample may leave [0, 1] and is still returned
+        if len(fs.neg) > 0 and len(fs.pos) > 0:
+            from score_analysis import BootstrapConfig
+            rstate = np.random.get_state()
+            bseed = int(inp.get("perm_seed", 0)) % (2 ** 31)
+            cfgs = [BootstrapConfig(nb_samples=4, sampling_method="replacement", smoothing=True),
+                    BootstrapConfig(nb_samples=4, sampling_method="dynamic", smoothing=True, stratified_sampling="by_label"),
+                    BootstrapConfig(nb_samples=4, sampling_method="single_pass"),
+                    BootstrapConfig(nb_samples=4, sampling_method="proportion", ratio=0.6)]
+
+            def seeded(clause, name, *a, **k):
+                # `both` calls the FraudScores object first, then the reference: seed before each
+                nonlocal evals
+                evals += 1
+                np.random.seed(bseed)
+                ra = common.call(getattr(fs, name), *a, **k)
+                np.random.seed(bseed)
+                rb = common.call(getattr(ref, name), *a, **k)
+                if ra[0] != rb[0] or (ra[0] == "exc" and ra[1] != rb[1]):
+                    fail(clause, f"{name}({k.get('config')}): FraudScores -> {ra[:2] if ra[0] == 'exc' else 'ok'} but Scores -> "
+                         f"{rb[:2] if rb[0] == 'exc' else 'ok'} from the same RNG state", f"fraud/{clause}/{name}")
+                elif ra[0] == "ok":
+                    va, vb = ra[1], rb[1]
+                    ok = _state_equal(_scores_state(va), _scores_state(vb)) if isinstance(va, Scores) else _same(va, vb)
+                    if not ok:
+                        fail(clause, f"{name}({k.get('config')}) differs from Scores from the same RNG state", f"fraud/{clause}/{name}")
+
+            try:
+                for cfg_ in cfgs:
+                    seeded("bootstrap", "bootstrap_sample", config=cfg_)
+                seeded("bootstrap", "bootstrap_metric", "fnr", threshold=tarr, config=cfgs[0])
+                seeded("bootstrap", "bootstrap_ci", "tpr", threshold=tarr, config=cfgs[1])
+            finally:
+                np.random.set_state(rstate)
 
         # boundary-target thresholds for the model comparison (scalar calls)
         thr_obs = {0: [], 1: []}
